@@ -419,6 +419,13 @@ func (dec *Decoder) Quoted(ptr *string) bool {
 			}
 		}
 
+		if ch == '\r' || ch == '\n' {
+			// A quoted string never spans lines: don't swallow what
+			// follows the end of the line
+			dec.mustUnreadByte()
+			return dec.Expect(false, "quoted string character")
+		}
+
 		sb.WriteByte(ch)
 	}
 	*ptr = sb.String()
